@@ -118,6 +118,63 @@ theorem atomic_if_renamed (L : Loader Reg) : CrashSafe L saveOpsAtomic := by
   · left; simp [loadFs, h, L.load_dump]
   · right; simp [loadFs, h, L.load_dump]
 
+/-! ### Any operation sequence: a moment without a usable live file is fatal -/
+
+/-- The crash states of a sequence contain those of every suffix, started from the state its prefix
+leads to. -/
+theorem crashStates_append (fs : Fs) (pre rest : List FsOp) (c : Fs)
+    (h : c ∈ crashStates (applyOps fs pre) rest) : c ∈ crashStates fs (pre ++ rest) := by
+  induction pre generalizing fs with
+  | nil => simpa [applyOps] using h
+  | cons op pre ih =>
+    have h' := ih (applyOp fs op) (by simpa [applyOps] using h)
+    cases op with
+    | write p d => simp only [List.cons_append, crashStates, List.mem_append]; exact Or.inr h'
+    | openTrunc p => simp only [List.cons_append, crashStates, List.mem_cons]; exact Or.inr h'
+    | close p => simp only [List.cons_append, crashStates, List.mem_cons]; exact Or.inr h'
+    | rename a b => simp only [List.cons_append, crashStates, List.mem_cons]; exact Or.inr h'
+
+/-- The state reached after any prefix of the operations is a crash state (the next operation not
+being a `write`, whose first crash state is "zero bytes written", the same state whenever the file
+exists). -/
+theorem state_after_prefix_is_crash_state (fs : Fs) (pre rest : List FsOp)
+    (h : ∀ p d, rest.head? ≠ some (.write p d)) :
+    applyOps fs pre ∈ crashStates fs (pre ++ rest) := by
+  apply crashStates_append
+  cases rest with
+  | nil => simp [crashStates]
+  | cons op rest =>
+    cases op with
+    | write p d => exact absurd rfl (h p d)
+    | openTrunc p => simp [crashStates]
+    | close p => simp [crashStates]
+    | rename a b => simp [crashStates]
+
+/-- **Whatever the sequence**: if at some crash point the live file is missing or empty, the save is
+not crash safe for any pair of non-empty registries — the file loads as the empty registry. -/
+theorem gap_is_fatal (L : Loader Reg) (old new : Reg) (ho : old ≠ L.empty) (hn : new ≠ L.empty)
+    (c : Fs) (hc : c.live = none ∨ c.live = some []) :
+    loadFs L c ≠ .ok old ∧ loadFs L c ≠ .ok new := by
+  have : loadFs L c = .ok L.empty := by
+    rcases hc with h | h <;> simp [loadFs, h, L.load_empty]
+  rw [this]
+  constructor <;> simp only [ne_eq, LoadResult.ok.injEq] <;> intro h
+  · exact ho h.symm
+  · exact hn h.symm
+
+/-- "Move the old file to a backup first, then write the new one" is not crash safe: right after the
+rename nothing is at the live path. -/
+theorem backup_first_not_crash_safe (L : Loader Reg) (r : Reg) (hr : r ≠ L.empty) :
+    ¬ CrashSafe L saveOpsBackupFirst := by
+  intro hs
+  have hmem : applyOps (Fs.init (L.dump r)) [.rename .live .tmp] ∈
+      crashStates (Fs.init (L.dump r)) (saveOpsBackupFirst (L.dump r)) :=
+    state_after_prefix_is_crash_state _ [.rename .live .tmp] _ (by simp)
+  have hgap := gap_is_fatal L r r hr hr (applyOps (Fs.init (L.dump r)) [.rename .live .tmp]) (Or.inl rfl)
+  rcases hs r r _ hmem with h | h
+  · exact hgap.1 h
+  · exact hgap.2 h
+
 /-! ### Non-vacuity: the toy loader satisfies the `Loader` hypotheses -/
 
 theorem toyBody_dump (n : Nat) : toyBody (List.replicate n 49 ++ [125]) = some n := by
@@ -163,6 +220,8 @@ def toyLoader : Loader Nat where
 
 /-- The refutation applies to a concrete loader … -/
 example : ¬ CrashSafe toyLoader saveOps := not_crash_safe toyLoader 1 (by decide)
+
+example : ¬ CrashSafe toyLoader saveOpsBackupFirst := backup_first_not_crash_safe toyLoader 1 (by decide)
 
 /-- … and so does the positive theorem. -/
 example : CrashSafe toyLoader saveOpsAtomic := atomic_if_renamed toyLoader
